@@ -1,10 +1,116 @@
-(* C16 — Wallet and announcement state follow the best chain.  Statements only. *)
+(* C16 — Wallet and announcement state follow the best chain.
+   Statements only; every proof is [exact lemma].
+
+   The model (Model.v) corresponds to /repo WITH the four repairs fixes/C16-*.patch:
+     - host/settings/update.go compares the reverted block's own index (not cru.State.Index, the
+       parent) with the recorded announcement index;
+     - ResetChainState also clears last_v2_announce_hash;
+     - WalletApplyIndex reads the balance maturing at the block's height before it removes and
+       adds the block's own outputs (an output spent or created at its maturity height);
+     - updateBalanceMetric never records a change before the newest data point of the series
+       (block timestamps are not monotone across reverts).
+   On the unpatched code each of these is a violation that the harness monitors reproduce.
+
+   Vocabulary (Proofs.v):  [reach s C] — s is reachable from the initial state by any sequence of
+   batches (reverts then applies, as index.Manager.syncDB issues them) and resets, C is the best
+   chain the host has processed (head = tip).  A batch is [wf_batch]: each revert carries the
+   content of the block at the tip ([wf_reverts]) and the resulting chain is a [valid_chain]:
+   consecutive heights, a block spends outputs that are unspent below it, creates outputs and
+   events with fresh ids.  Failed batches are rolled back (Model.step), so they do not appear.
+   [ufold C]/[efold C]: unspent outputs / events derived from the chain C alone.
+   [scur series]: the value Store.Metrics reports at any time not before the newest data point. *)
 From HostdBase Require Import Base.
 From HostdWallet Require Import Model Lib Proofs ProofsAnn.
 
-Theorem c16_reset : forall s, reset s = init.
-Proof. exact reset_is_init. Qed.
+(* every well-formed operation list run through the model's [step] (the function the
+   correspondence check executes against the implementation) ends in a [reach]able state *)
+Theorem c16_histories : forall l, wf_ops init [] l -> reach (runs init l) (ghost init [] l).
+Proof. exact (fun l => runs_reach l init [] reach_init). Qed.
+Print Assumptions c16_histories.
+
+(* spendable outputs and event list = those derived from the current best chain alone *)
+Theorem c16_utxos_events_function_of_chain : forall s C, reach s C ->
+  utxos s = ufold C /\ events s = efold C.
+Proof. exact utxos_events_function_of_chain. Qed.
+Print Assumptions c16_utxos_events_function_of_chain.
+
+(* inverse law behind it: disconnecting a block that was just connected restores outputs,
+   events and both balance metrics *)
+Theorem c16_revert_apply_inverse : forall s C b r s1 s2, reach s C -> valid_chain (b :: C) ->
+  rb_idx r = ab_idx b -> rb_removed r = ab_created b -> rb_unspent r = ab_spent b ->
+  wallet_apply s b = Ok s1 -> wallet_revert s1 r = Ok s2 ->
+  utxos s2 = utxos s /\ events s2 = events s /\
+  scur (mbal s2) = scur (mbal s) /\ scur (mimm s2) = scur (mimm s).
+Proof. exact revert_apply_inverse. Qed.
+Print Assumptions c16_revert_apply_inverse.
+
+(* confirmed balance metric = sum of outputs with maturity height <= processed height,
+   immature balance metric = sum of the others, after every batch of every history *)
+Theorem c16_balance_metrics : forall s C, reach s C ->
+  scur (mbal s) = msum (tip_height C) (utxos s) /\ scur (mimm s) = isum (tip_height C) (utxos s).
+Proof. exact balance_metrics. Qed.
+Print Assumptions c16_balance_metrics.
+
+(* what the observation functions return (Store.UnspentSiacoinElements, WalletEvents, Metrics at
+   a time not before the newest data point) is the function of the best chain *)
+Theorem c16_observed_state : forall s C now, reach s C ->
+  (smaxkey (mbal s) <= bucket now)%N -> (smaxkey (mimm s) <= bucket now)%N ->
+  snd (step s (Observe now)) =
+    OState (ufold C) (efold C) (msum (tip_height C) (ufold C)) (isum (tip_height C) (ufold C))
+           (a_idx s) (a_addr s) (a_hash s) (tip s).
+Proof. exact balance_metrics_observed. Qed.
+Print Assumptions c16_observed_state.
+
+(* un-maturing: once the tip at height h is disconnected, an output maturing at h counts as
+   immature again and the confirmed metric is the sum at the new height *)
+Theorem c16_unmature_on_revert : forall s b C r s' e, reach s (b :: C) -> C <> [] ->
+  rb_idx r = ab_idx b -> rb_removed r = ab_created b -> rb_unspent r = ab_spent b ->
+  wallet_revert s r = Ok s' -> In e (utxos s') -> emat e = ih (ab_idx b) ->
+  scur (mbal s') = msum (tip_height C) (utxos s') /\ mval (tip_height C) e = 0%N /\
+  ival (tip_height C) e = eval e.
+Proof. exact unmature_on_revert. Qed.
+Print Assumptions c16_unmature_on_revert.
+
+(* the announcement record is empty or refers to a block of the current best chain that
+   contains an announcement signed by the host *)
+Theorem c16_announcement_on_best_chain : forall s C, reach s C ->
+  match a_idx s with
+  | None => True
+  | Some i => exists b, In b C /\ ab_idx b = i /\ host_ann b = true
+  end.
+Proof. exact reach_ann_ok. Qed.
+Print Assumptions c16_announcement_on_best_chain.
+
+(* ... and it is cleared exactly when that block is disconnected: for a batch that confirms
+   no new announcement of the host, the record (index, address, v2 hash) is emptied iff the
+   block it refers to is among the disconnected ones, and is unchanged otherwise — in
+   particular when only the block after the announcement is disconnected *)
+Theorem c16_announcement_cleared_iff : forall s C rs bs s' i, reach s C -> a_idx s = Some i ->
+  wf_batch C rs bs -> batch s rs bs = Ok s' -> records bs = false ->
+  (In i (map ab_idx (disconnected C rs)) -> a_idx s' = None /\ a_addr s' = None /\ a_hash s' = None) /\
+  (~ In i (map ab_idx (disconnected C rs)) ->
+     a_idx s' = Some i /\ a_addr s' = a_addr s /\ a_hash s' = a_hash s).
+Proof. exact ann_cleared_iff. Qed.
+Print Assumptions c16_announcement_cleared_iff.
+
+(* the processed-tip marker written in the same transaction is the tip of the best chain *)
+Theorem c16_tip_marker : forall s C, reach s C ->
+  match C with [] => True | b :: _ => tip s = Some (ab_idx b) end.
+Proof. exact reach_tip_ok. Qed.
+Print Assumptions c16_tip_marker.
+
+(* ResetChainState empties all of it, including the v2 announcement hash *)
+Theorem c16_reset : forall s, reset s = init /\ utxos (reset s) = [] /\ events (reset s) = [] /\
+  (forall now, sread (mbal (reset s)) now = 0%N /\ sread (mimm (reset s)) now = 0%N) /\
+  a_idx (reset s) = None /\ a_addr (reset s) = None /\ a_hash (reset s) = None /\ tip (reset s) = None.
+Proof. exact reset_spec. Qed.
 Print Assumptions c16_reset.
 
-Example c16_nonvacuous : reset init = init.
-Proof. vm_compute; reflexivity. Qed.
+(* non-vacuity: a concrete history (payout maturing at 3, announcement in block 2, the payout
+   spent at its maturity height in block 3, block 3 disconnected) is well-formed and reachable *)
+Example c16_nonvacuous :
+  reach (runs init wit_ops) [wit_b2; wit_b1] /\
+  utxos (runs init wit_ops) = [wit_e1] /\ scur (mbal (runs init wit_ops)) = 0%N /\
+  scur (mimm (runs init wit_ops)) = 7%N /\ a_idx (runs init wit_ops) = Some (ix 2 2) /\
+  tip (runs init wit_ops) = Some (ix 2 2).
+Proof. exact nonvacuous_witness. Qed.
